@@ -684,6 +684,13 @@ class Exec:
             raise Unsupported("integer division")
         return Val("VZ", comps=[self.arith_result("(%s %s %s)%%Z" % (x, ZOP[opname], y), ct).term for x, y in zip(ca, cb)], ct=ct)
 
+    def operand(self, n):
+        """operand of an Eigen operator: a floating literal is converted to the Scalar of the expression (promote_scalar_arg)"""
+        s = self.strip(n)
+        if s.get("kind") == "FloatingLiteral":
+            return self.lit_T(s["value"], type_of(s) == "double")
+        return self.expr(n)
+
     def opcall(self, n):
         nm, _ = self.callee_name(n)
         args = n["inner"][1:]
@@ -699,7 +706,7 @@ class Exec:
             loc = self.lvalue(n)
             return self.read(loc, type_of(n))
         if nm in ("operator+", "operator-", "operator*", "operator/") and len(args) == 2:
-            return self.broadcast(self.expr(args[0]), self.expr(args[1]), nm[-1], type_of(n))
+            return self.broadcast(self.operand(args[0]), self.operand(args[1]), nm[-1], type_of(n))
         if nm == "operator-" and len(args) == 1:
             a = self.vec_of(self.expr(args[0]))
             if a.kind != "VT" or "scalar_opposite_op" not in type_of(n):
@@ -1305,7 +1312,7 @@ def out_term(v):
     raise Unsupported("output of kind %s" % v.kind)
 
 
-def translate(tus, cls, name, scalar, dim, coq_name, nargs=None, first_param=None):
+def translate(tus, cls, name, scalar, dim, coq_name, nargs=None, first_param=None, select=None):
     """-> (definition text, comment) for the method cls<scalar,dim>::name"""
     ex = Exec(tus, scalar, dim)
     tu = tus[cls]
@@ -1314,6 +1321,8 @@ def translate(tus, cls, name, scalar, dim, coq_name, nargs=None, first_param=Non
         ms = [m for m in ms if nparams(m) == nargs]
     if first_param is not None:
         ms = [m for m in ms if nparams(m) and first_param in [c for c in m["inner"] if c.get("kind") == "ParmVarDecl"][0].get("type", {}).get("qualType", "")]
+    if select is not None:
+        ms = [m for m in ms if select(m)]
     if len(ms) != 1:
         raise Unsupported("%d definitions of %s<%s, %d>::%s" % (len(ms), cls, scalar, dim, name))
     outs = ex.run(cls, ms[0])
